@@ -456,11 +456,12 @@ func (c *prCtx) stmts(list []ast.Stmt, rest string) string {
 		if s.Init != nil {
 			c.fail(s, "if with init")
 		}
-		// early return: if X { return }
-		if len(s.Body.List) == 1 && s.Else == nil {
-			if r, ok := s.Body.List[0].(*ast.ReturnStmt); ok && len(r.Results) == 0 {
+		// early return: if X { A...; return }  =  if X then A else <the rest>
+		if n := len(s.Body.List); n >= 1 && s.Else == nil {
+			if r, ok := s.Body.List[n-1].(*ast.ReturnStmt); ok && len(r.Results) == 0 {
 				code, ge, gv := c.cond(s.Cond)
-				return guardWrap(ge, gv, fmt.Sprintf("if %s then [] else %s", code, tail()))
+				thenS := c.stmts(s.Body.List[:n-1], "[]")
+				return guardWrap(ge, gv, fmt.Sprintf("if %s then %s else %s", code, thenS, tail()))
 			}
 		}
 		// optional identifier: if x.Name != nil { ... }
